@@ -279,18 +279,26 @@ def shellRes : Cmd → Res
 
 /-! ### the transition function -/
 
-def enterAct (P : Program) (F : Flags) (c : Config) (a : Nat) (kind : Kind) (t : Nat) : Option Config :=
-  if (c.act? a).isSome then none else
-  let d? := P[t]?
-  let d := d?.getD {}
-  let cnt := c.callCount t + 1
-  let countable := (match d? with | some d => d.platformOk && d.requiresOk && d.enumOk | none => false)
-  let c1 : Config := if countable then { c with calls := (t, cnt) :: c.calls } else c
-  let indirect := match kind with | .top _ => false | _ => true
-  let x0 : Act := { kind, task := t, indirect, phase := .entered, def_ := d }
-  let x : Act := match earlyResult d? cnt F.maxCalls with
-    | some r => { x0 with phase := .early, res := r }
-    | none => x0
+/-- the activation a freshly entered label creates -/
+def freshAct (P : Program) (F : Flags) (c : Config) (kind : Kind) (t : Nat) : Act :=
+  let x0 : Act := { kind, task := t, indirect := (match kind with | .top _ => false | _ => true),
+                    phase := .entered, def_ := (P[t]?).getD {} }
+  match earlyResult P[t]? (c.callCount t + 1) F.maxCalls with
+  | some r => { x0 with phase := .early, res := r }
+  | none => x0
+
+/-- `atomic.AddInt32(e.taskCallCount[t], 1)`: reached only when platform / requires / enum passed -/
+def bumpCalls (P : Program) (c : Config) (t : Nat) : Config :=
+  match P[t]? with
+  | some d => if d.platformOk && d.requiresOk && d.enumOk then { c with calls := (t, c.callCount t + 1) :: c.calls } else c
+  | none => c
+
+/-- who may create activation `a` now: `Run` (k-th call) or a parent activation, which gains a kid -/
+inductive Parent
+  | top (k : Nat)
+  | act (p : Nat) (px' : Act)
+
+def enterCheck (F : Flags) (c : Config) (a : Nat) (kind : Kind) (t : Nat) : Option Parent :=
   match kind with
   | .top k =>
     if k ≥ c.ncalls || (c.tops.lookup k).isSome then none
@@ -300,8 +308,7 @@ def enterAct (P : Program) (F : Flags) (c : Config) (a : Nat) (kind : Kind) (t :
         (match c.tops.lookup (k-1) with
          | some pid => (match kidDone c pid with | some r => r.isOk | none => false)
          | none => false)
-      if !prevOk then none else
-      some ({ c1 with tops := (k, a) :: c1.tops }.set a x)
+      if prevOk then some (.top k) else none
   | .dep p j =>
     match c.act? p with
     | none => none
@@ -309,9 +316,7 @@ def enterAct (P : Program) (F : Flags) (c : Config) (a : Nat) (kind : Kind) (t :
       if px.phase ≠ .depsWait || (px.kids.lookup (slotOfDep j)).isSome then none else
       match px.def_.deps[j]? with
       | none => none
-      | some t' =>
-        if t' ≠ t then none else
-        some ((c1.set p { px with kids := (slotOfDep j, a) :: px.kids }).set a x)
+      | some t' => if t' ≠ t then none else some (.act p { px with kids := (slotOfDep j, a) :: px.kids })
   | .call p i dfr =>
     match c.act? p with
     | none => none
@@ -319,9 +324,15 @@ def enterAct (P : Program) (F : Flags) (c : Config) (a : Nat) (kind : Kind) (t :
       if px.phase ≠ .inCall i dfr || (px.kids.lookup (slotOfCall px i)).isSome then none else
       match px.def_.cmds[i]? with
       | some (.call t' d') =>
-        if t' ≠ t || d' ≠ dfr then none else
-        some ((c1.set p { px with kids := (slotOfCall px i, a) :: px.kids }).set a x)
+        if t' ≠ t || d' ≠ dfr then none else some (.act p { px with kids := (slotOfCall px i, a) :: px.kids })
       | _ => none
+
+def enterAct (P : Program) (F : Flags) (c : Config) (a : Nat) (kind : Kind) (t : Nat) : Option Config :=
+  if (c.act? a).isSome then none else
+  match enterCheck F c a kind t with
+  | none => none
+  | some (.top k) => some (({ bumpCalls P c t with tops := (k, a) :: c.tops }).set a (freshAct P F c kind t))
+  | some (.act p px') => some (((bumpCalls P c t).set p px').set a (freshAct P F c kind t))
 
 /-- what one activation can observe of the rest of the configuration at a step -/
 structure Obs where
